@@ -1,13 +1,13 @@
 #!/usr/bin/env python3
 """Generate the go build -overlay JSON from /repo's current tree.
- - files under overlay/files/<path relative to /repo> are ADDED to the corresponding package (build tag verif).
+ - files under overlay/_files/<path relative to /repo> are ADDED to the corresponding package (build tag verif).
 Nothing in /repo is modified."""
 import json, os, sys
 here = os.path.dirname(os.path.abspath(__file__))
 repo = os.environ.get("VERIF_REPO", "/repo")
 out = sys.argv[1]
 replace = {}
-root = os.path.join(here, "files")
+root = os.path.join(here, "_files")
 for d, _, fs in os.walk(root):
     for f in fs:
         if not f.endswith(".go"): continue
